@@ -12,6 +12,7 @@ import (
 	"errors"
 	"fmt"
 	"os"
+	"strings"
 	"syscall"
 	"testing"
 	"time"
@@ -122,7 +123,9 @@ func (s shape) size() (v, e int) {
 
 func tl(n string) label.TargetLabel { return label.TargetLabel{Package: "p", Name: n} }
 
-func targetGraph(s shape, withOutputs bool) (*dag.DirectedTargetGraph, model.BuildNodeMap, error) {
+// withOutputs: 0 none; 1 the first node of every layer writes one shared directory; 2 only the bottom and the top
+// node write the same file (their order has to be proven across the whole graph, nothing in between is cached).
+func targetGraph(s shape, withOutputs int) (*dag.DirectedTargetGraph, model.BuildNodeMap, error) {
 	nodes := model.BuildNodeMap{}
 	for li, layer := range s.layers {
 		for wi, n := range layer {
@@ -131,8 +134,11 @@ func targetGraph(s shape, withOutputs bool) (*dag.DirectedTargetGraph, model.Bui
 				t.Dependencies = append(t.Dependencies, tl(d))
 			}
 			// every layer's first node writes the same directory: legal, because those writers are totally ordered
-			if withOutputs && wi == 0 {
+			if withOutputs == 1 && wi == 0 {
 				t.Outputs = []model.Output{model.NewOutput("dir", "shared"), model.NewOutput("file", fmt.Sprintf("f%d", li))}
+			}
+			if withOutputs == 2 && (n == "root" || n == "top") {
+				t.Outputs = []model.Output{model.NewOutput("file", "same.txt")}
 			}
 			nodes[t.Label] = t
 		}
@@ -200,7 +206,7 @@ func runOp(c Case) (opResult, error) {
 			}
 		}
 	case "descendants", "ancestors":
-		g, nodes, err := targetGraph(s, false)
+		g, nodes, err := targetGraph(s, 0)
 		if err != nil {
 			return res, err
 		}
@@ -221,15 +227,15 @@ func runOp(c Case) (opResult, error) {
 		if len(seen) != v-1 {
 			return res, fmt.Errorf("%s returned %d distinct nodes, want %d", c.Op, len(seen), v-1)
 		}
-	case "buildgraph":
+	case "buildgraph", "buildgraph-pair":
 		start := cpu()
-		_, _, err := targetGraph(s, true)
+		_, _, err := targetGraph(s, map[string]int{"buildgraph": 1, "buildgraph-pair": 2}[c.Op])
 		res.cpu = cpu() - start
 		if err != nil {
 			return res, err
 		}
 	case "criticalpath":
-		g, _, err := targetGraph(s, false)
+		g, _, err := targetGraph(s, 0)
 		if err != nil {
 			return res, err
 		}
@@ -240,7 +246,7 @@ func runOp(c Case) (opResult, error) {
 			return res, fmt.Errorf("no critical path")
 		}
 	case "walk-fail":
-		g, nodes, err := targetGraph(s, false)
+		g, nodes, err := targetGraph(s, 0)
 		if err != nil {
 			return res, err
 		}
@@ -273,7 +279,7 @@ func runOp(c Case) (opResult, error) {
 			return res, fmt.Errorf("callbacks=%d, want only the failing root", calls)
 		}
 	case "walk-ok":
-		g, nodes, err := targetGraph(s, false)
+		g, nodes, err := targetGraph(s, 0)
 		if err != nil {
 			return res, err
 		}
@@ -329,7 +335,7 @@ func run(c Case) (pbt.Result, error) {
 }
 
 var counterOps = []string{"select", "descendants", "ancestors"}
-var timedOps = []string{"buildgraph", "criticalpath", "walk-fail", "walk-ok"}
+var timedOps = []string{"buildgraph", "buildgraph-pair", "buildgraph-pair", "criticalpath", "walk-fail", "walk-ok"}
 
 func TestScaling(t *testing.T) {
 	thorough := testingTier() == "thorough"
@@ -348,6 +354,9 @@ func TestScaling(t *testing.T) {
 				maxD := map[int]int{2: 16, 3: 10}[c.Width]
 				if timed {
 					maxD = map[int]int{2: 23, 3: 15}[c.Width] // <= 2^24 paths: enough for CPU time to tell, bounded memory if paths are enumerated
+					if strings.HasPrefix(c.Op, "buildgraph") {
+						maxD = map[int]int{2: 27, 3: 17}[c.Width] // graph analysis keeps no per-path memory: go deeper
+					}
 				} else if thorough {
 					maxD = map[int]int{2: 20, 3: 12}[c.Width]
 				}
